@@ -22,7 +22,11 @@ mod c19 {
         let (tx, mut rx) = merge_channel::<u8>();
         let mut tx = Some(tx);
         let rx_ptr: *mut Receiver<u8> = &mut rx;
-        let mut fut: Option<Pin<Box<dyn Future<Output = Option<u8>>>>> = None;
+        // (concrete future type: no dynamic dispatch)
+        let mut fut = None;
+        if false {
+            fut = Some(Box::pin(unsafe { (*rx_ptr).recv() }));
+        }
         let w = waker();
         let mut cx = Context::from_waker(&w);
 
@@ -110,17 +114,17 @@ mod c19 {
     }
 
     #[kani::proof]
-    #[kani::unwind(6)]
+    #[kani::unwind(5)]
     #[kani::stub(std::rt::thread_cleanup, noop)]
-    fn c19_schedule_4() {
-        run_schedule::<4>();
+    fn c19_schedule_3() {
+        run_schedule::<3>();
     }
 
     #[kani::proof]
-    #[kani::unwind(8)]
+    #[kani::unwind(7)]
     #[kani::stub(std::rt::thread_cleanup, noop)]
-    fn c19_schedule_6() {
-        run_schedule::<6>();
+    fn c19_schedule_5() {
+        run_schedule::<5>();
     }
 
     /// producer learns that the consumer is gone
